@@ -221,16 +221,17 @@ MaskS(s, n, names, ha, hk, hva, hvk, pm, vals, pobj) ==
       restPos0 == IF n >= Len(s.pos) THEN <<>> ELSE SubSeq(s.pos, n + 1, Len(s.pos))
       usedPok == IF n > Len(s.pos) THEN n - Len(s.pos) ELSE 0
       restPok0 == IF usedPok >= Len(s.pok) THEN <<>> ELSE SubSeq(s.pok, usedPok + 1, Len(s.pok))
-      restPos == IF ha THEN <<>> ELSE restPos0
-      restPok == IF ha THEN <<>> ELSE restPok0
-      consumed0 == IF ha THEN SeqNames(chain) ELSE {chain[x].n : x \in 1..(IF tooMany THEN Len(chain) ELSE n)}
+      consumed0 == {chain[x].n : x \in 1..(IF tooMany THEN Len(chain) ELSE n)}
       failN == n > 0 /\ tooMany /\ s.va = NoP
       va1 == IF ha \/ hva THEN NoP ELSE s.va
       src1 == SPop(s.src, consumed0 \cup (IF (ha \/ hva) /\ s.va # NoP THEN {s.va.n} ELSE {}))
-      st0 == [pok |-> restPok, kwo |-> s.kwo, va |-> va1, vk |-> s.vk,
+      st0 == [pok |-> restPok0, kwo |-> s.kwo, va |-> va1, vk |-> s.vk,
               src |-> src1, table |-> SeqNames(s.pok), consumed |-> consumed0, fail |-> FALSE]
       st1 == MaskNames(st0, names, pm, vals, pobj)
-      st2 == IF hk THEN [st1 EXCEPT !.src = SPop(@, SeqNames(st1.pok) \cup SeqNames(st1.kwo)), !.pok = <<>>, !.kwo = <<>>] ELSE st1
+      (* hide_args: the positional parameters still there once the n arguments and the names are consumed *)
+      restPos == IF ha THEN <<>> ELSE restPos0
+      st1h == IF ha /\ ~st1.fail THEN [st1 EXCEPT !.src = SPop(@, SeqNames(restPos0) \cup SeqNames(st1.pok)), !.pok = <<>>] ELSE st1
+      st2 == IF hk THEN [st1h EXCEPT !.src = SPop(@, SeqNames(st1h.pok) \cup SeqNames(st1h.kwo)), !.pok = <<>>, !.kwo = <<>>] ELSE st1h
       src2 == IF (hk \/ hvk) /\ st2.vk # NoP THEN SPop(st2.src, {st2.vk.n}) ELSE st2.src
       depth2 == IF pm THEN [f \in DOMAIN s.depth \cup {pobj} |-> IF f = pobj THEN 0 ELSE s.depth[f] + 1] ELSE s.depth
   IN IF failN \/ st1.fail THEN ValErr
